@@ -115,4 +115,9 @@ CONFIG = {
         "thorough": {'checks': 800000, 'shards': 14, 'timeout': 3600, 'shrinktime': '60s'},
         "assumptions": ['conversions whose Go meaning surprises (integer -> string) are not generated', 'dump is not checked (development aid, output unspecified)'],
     },
+    'C18': {
+        "quick": {'checks': 10000, 'shards': 4, 'timeout': 900},
+        "thorough": {'checks': 400000, 'shards': 14, 'timeout': 3600, 'shrinktime': '60s'},
+        "assumptions": ['Let is only called from bodies that already declared a variable', 'SetOrLet is not used on global or built-in names', 'LetGlobal is used with a non-nil VarMap'],
+    },
 }
